@@ -59,7 +59,8 @@ def cmd_mutants(argv):
     rows = []
     bad = 0
     for prop, patch in items:
-        if want and prop not in want and os.path.basename(os.path.dirname(patch)) not in want:
+        if want and prop not in want and os.path.basename(os.path.dirname(patch)) not in want \
+                and os.path.splitext(os.path.basename(patch))[0] not in want:
             continue
         st, info, dt = run_one(prop, patch)
         rel = os.path.relpath(patch, VERIF)
